@@ -184,6 +184,23 @@ func judgeG2(r *vcore.Run, c *g2Case, o outcome) {
 		rep := c.replay()
 		rep["error"] = o.Err
 		r.Count("nsw.g2.MISMATCH-IN-DOMAIN", 1)
-		r.Violation(fam+"/"+mode+"/differs-from-native-or-unsatisfiable/"+c.Class, fmt.Sprintf("%s (%s): result differs from gnark-crypto or the gadget is unsatisfiable on a documented input: %s: %s", fam, mode, c.Class, o.Err), rep)
+		cls := c.Class
+		if c.Op == "ScalarMul" || c.Op == "ScalarMulBase" {
+			cls = g2ScalarClass(c)
+		}
+		r.Violation(fam+"/"+mode+"/differs-from-native-or-unsatisfiable/"+cls, fmt.Sprintf("%s (%s): result differs from gnark-crypto or the gadget is unsatisfiable on a documented input: %s: %s", fam, mode, c.Class, o.Err), rep)
 	}
+}
+
+func g2ScalarClass(c *g2Case) string {
+	for _, n := range nswDescs() {
+		if n.tag == c.Curve {
+			p := "P-generic"
+			if c.Op == "ScalarMul" && c.A.Sign() == 0 {
+				p = "P=inf"
+			}
+			return n.d.scalarClass(c.S) + "/" + p
+		}
+	}
+	return c.Class
 }
